@@ -21,8 +21,9 @@ From CG3 Require Import Proofs.IndelMapProofs Proofs.IndelMapOps Proofs.IndelMap
                         Proofs.IndelMapMain Proofs.IndelMapBounded Proofs.IndelMapFixedProofs
                         Proofs.IndelMapMerge Proofs.IndelMapShared Proofs.IndelMapJoin Proofs.FeatureMapProofs
                         Proofs.FeatureMapCovInv Proofs.IndelMapGenEq Proofs.IndelMapGenMain.
-From CG3gen Require Import IndelMapGen.
-Import G.
+From CG3 Require Import Model.FeatureMapPrims Proofs.FeatureMapGenEq Proofs.FeatureMapGenMain.
+From CG3gen Require Import IndelMapGen FeatureMapGen.
+Import G. Import GF.
 
 (** * construction: string -> map -> string *)
 
@@ -389,6 +390,58 @@ Proof. exact IndelMapGenMain.gen_spans_spec. Qed.
 Theorem gen_nongap_bounded_partial : forall k : list bool, (length k <= 10)%nat ->
   nonempty (g_nongap (from_mask k)) = seg_runs k.
 Proof. exact IndelMapGenMain.gen_nongap_bounded. Qed.
+
+Theorem gen_shared_gaps_spec : forall m1 m2 : imap, WF m1 -> WF m2 -> g_len m1 = g_len m2 ->
+  g_shared_gaps m1 m2 = Ok (mask_shared (abs m1) (abs m2)).
+Proof. exact IndelMapGenMain.gen_shared_gaps_spec. Qed.
+
+Theorem gen_minus_gaps_spec : forall m1 m2 : imap, WF m1 -> WF m2 -> g_len m1 = g_len m2 ->
+  exists m', g_minus_gaps m1 m2 = Ok m' /\ WF m' /\ abs m' = mask_minus (abs m1) (abs m2).
+Proof. exact IndelMapGenMain.gen_minus_gaps_spec. Qed.
+
+Theorem gen_minus_gaps_from_mask : forall k1 k2 : list bool, zlen k1 = zlen k2 ->
+  g_minus_gaps (from_mask k1) (from_mask k2) = Ok (from_mask (mask_minus k1 k2)).
+Proof. exact IndelMapGenMain.gen_minus_gaps_from_mask. Qed.
+
+Theorem gen_joined_segments_spec : forall (k : list bool) (cs : list (Z * Z)), segs_ok 0 (zlen k) cs ->
+  g_joined_segments (from_mask k) cs = Ok (from_mask (mask_join k cs)).
+Proof. exact IndelMapGenMain.gen_joined_segments_spec. Qed.
+
+Theorem gen_from_aligned_segments_spec : forall k : list bool, has_residue k = true ->
+  g_from_aligned_segments (seg_runs k) (zlen k) = Ok (from_mask k).
+Proof. exact IndelMapGenMain.gen_from_aligned_segments_spec. Qed.
+
+Theorem gen_gap_coords_to_map_spec : forall k : list bool,
+  g_gap_coords_to_map (gap_insertions k) (count_res k) = Ok (from_mask k).
+Proof. exact IndelMapGenMain.gen_gap_coords_to_map_spec. Qed.
+
+(** FeatureMap: inverse / shadow / nucleic_reversed / gaps regenerated from the current text
+    (coq/gen/FeatureMapGen.v, module [GF], harness/translators/featuremap.py; equalities in
+    Proofs/FeatureMapGenEq.v) *)
+
+Theorem gen_fm_inverse_spec : forall fm : fmap, in_parent fm = true -> disjoint_spans fm = true ->
+  exists c, g_fm_inverse fm = Ok c /\ den c = inverse_den (fplen fm) (den fm) /\
+            fplen c = zlen (den fm) /\ in_parent c = true.
+Proof. exact FeatureMapGenMain.gen_fm_inverse_spec. Qed.
+
+Theorem gen_fm_shadow_spec : forall fm : fmap, 0 <= fplen fm -> in_parent fm = true -> disjoint_spans fm = true ->
+  exists g, g_fm_shadow fm = Ok g /\ den g = map Some (complement (fplen fm) (positions fm)) /\
+            fplen g = fplen fm /\ in_parent g = true /\ all_forward g = true.
+Proof. exact FeatureMapGenMain.gen_fm_shadow_spec. Qed.
+
+Theorem gen_fm_nucleic_reversed_spec : forall fm : fmap, in_parent fm = true ->
+  exists c, g_fm_nucleic_reversed fm = Ok c /\ in_parent c = true /\ fplen c = fplen fm /\
+            zlen (den c) = zlen (den fm) /\
+            (all_forward fm = true -> den c = rev (map (flip (fplen fm)) (den fm))).
+Proof. exact FeatureMapGenMain.gen_fm_nucleic_reversed_spec. Qed.
+
+Theorem gen_fm_gaps_spec : forall fm : fmap, in_parent fm = true ->
+  exists c, g_fm_gaps fm = Ok c /\ den c = map Some (lost_cells 0 (den fm)) /\ fplen c = flen fm /\
+            in_parent c = true /\ all_forward c = true.
+Proof. exact FeatureMapGenMain.gen_fm_gaps_spec. Qed.
+
+Theorem gen_from_locations : forall (locs : list (Z * Z)) (n : Z), g_from_locations locs n = from_locations locs n.
+Proof. exact FeatureMapGenMain.gen_from_locations. Qed.
 
 (** * the hypotheses are satisfiable: concrete instances *)
 Theorem wf_example : WF (from_mask [false; true; true; false; true; false; false]).
